@@ -26,26 +26,44 @@ def rstr(m, v):
     return v
 
 
+from . import unicode as U
+
+
 def c_is_upper(c):
-    if not is_sym(c):
-        return chr(c).isupper() if c < 128 else None
-    return z3.And(z3.UGE(c, 65), z3.ULE(c, 90))
-
-
-def c_is_lower(c):
-    return z3.And(z3.UGE(c, 97), z3.ULE(c, 122))
+    return U.pred('upper', c)
 
 
 def c_to_ascii_lower(c):
-    if not is_sym(c):
-        return c + 32 if 65 <= c <= 90 else c
-    return z3.If(c_is_upper(c), c + 32, c)
+    return U.to_ascii_lower(c)
 
 
 def c_to_ascii_upper(c):
-    if not is_sym(c):
-        return c - 32 if 97 <= c <= 122 else c
-    return z3.If(c_is_lower(c), c - 32, c)
+    return U.to_ascii_upper(c)
+
+
+def blen(m, cs):
+    """byte length of a char list (forks on utf-8 width of symbolic chars)"""
+    return sum(U.utf8_len(m, c) for c in cs)
+
+
+def cidx(m, cs, b, what='byte index'):
+    """char index of byte offset b; Panic when b is out of range or not a char boundary"""
+    if is_sym(b):
+        raise Unsupported('symbolic byte offset')
+    off = 0
+    for k, c in enumerate(cs):
+        if off == b:
+            return k
+        if off > b:
+            break
+        off += U.utf8_len(m, c)
+    if off == b:
+        return len(cs)
+    raise Panic(f'{what} {b} is out of bounds or not a char boundary')
+
+
+def charval(m, r):
+    return m.read_place(r.frame, r.place) if isinstance(r, Ref) else (r.v if isinstance(r, ValRef) else r)
 
 
 @model(r'^String::new$|^String::with_capacity$')
@@ -68,7 +86,7 @@ def _(m, callee, args):
 
 @model(r'str::<impl str>::len$')
 def _(m, callee, args):
-    return len(rstr(m, args[0]).cs)
+    return blen(m, rstr(m, args[0]).cs)
 
 
 @model(r'str::<impl str>::chars$')
@@ -96,36 +114,51 @@ def _(m, callee, args):
     m.write_place(r.frame, r.place, Iter(it.kind, it.s, it.pos + 1))
     if it.kind == 'chars':
         return Enum(1, [c], 'Some')
-    return Enum(1, [(it.pos, c)], 'Some')   # ASCII domain: byte index == char index
+    return Enum(1, [(blen(m, it.s.cs[:it.pos]), c)], 'Some')
 
 
-@model(r'char::methods::<impl char>::is_uppercase$')
+@model(r'char::methods::<impl char>::is_(uppercase|lowercase|alphanumeric|numeric|alphabetic|whitespace)$')
 def _(m, callee, args):
-    return c_is_upper(args[0])
+    kind = {'uppercase': 'upper', 'lowercase': 'lower', 'alphanumeric': 'alnum', 'numeric': 'numeric',
+            'alphabetic': 'alpha', 'whitespace': 'ws'}[re.search(r'is_(\w+)$', callee).group(1)]
+    return U.pred(kind, charval(m, args[0]))
 
 
 @model(r'char::methods::<impl char>::to_ascii_lowercase$')
 def _(m, callee, args):
-    r = args[0]
-    c = m.read_place(r.frame, r.place) if isinstance(r, Ref) else r
-    return c_to_ascii_lower(c)
+    return c_to_ascii_lower(charval(m, args[0]))
 
 
 @model(r'char::methods::<impl char>::to_ascii_uppercase$')
 def _(m, callee, args):
-    r = args[0]
-    c = m.read_place(r.frame, r.place) if isinstance(r, Ref) else r
-    return c_to_ascii_upper(c)
+    return c_to_ascii_upper(charval(m, args[0]))
 
 
-@model(r'str::<impl str>::to_ascii_lowercase$|str::<impl str>::to_lowercase$')
+@model(r'str::<impl str>::to_ascii_lowercase$')
 def _(m, callee, args):
     return RStr([c_to_ascii_lower(c) for c in rstr(m, args[0]).cs])
 
 
-@model(r'str::<impl str>::to_ascii_uppercase$|str::<impl str>::to_uppercase$')
+@model(r'str::<impl str>::to_ascii_uppercase$')
 def _(m, callee, args):
     return RStr([c_to_ascii_upper(c) for c in rstr(m, args[0]).cs])
+
+
+@model(r'str::<impl str>::to_lowercase$')
+def _(m, callee, args):
+    # per-char Unicode mapping; the context-sensitive final sigma is outside the char domain (unicode.SAMPLE)
+    out = []
+    for c in rstr(m, args[0]).cs:
+        out.extend(U.case_map(m, c, 'lower'))
+    return RStr(out)
+
+
+@model(r'str::<impl str>::to_uppercase$')
+def _(m, callee, args):
+    out = []
+    for c in rstr(m, args[0]).cs:
+        out.extend(U.case_map(m, c, 'upper'))
+    return RStr(out)
 
 
 @model(r'str::<impl str>::replace::<char>$')
@@ -144,19 +177,23 @@ def _(m, callee, args):
 @model(r'^<(String|str) as (std::ops::)?Index<(std::ops::)?RangeTo<usize>>>::index$')
 def _(m, callee, args):
     s = rstr(m, args[0])
-    end = args[1].fields[0]
-    if end > len(s.cs):
-        raise Panic('byte index out of range')
-    return ValRef(RStr(s.cs[:end]))
+    return ValRef(RStr(s.cs[:cidx(m, s.cs, args[1].fields[0], 'end byte index')]))
 
 
 @model(r'^<(String|str) as (std::ops::)?Index<(std::ops::)?RangeFrom<usize>>>::index$')
 def _(m, callee, args):
     s = rstr(m, args[0])
-    start = args[1].fields[0]
-    if start > len(s.cs):
-        raise Panic('byte index out of range')
-    return ValRef(RStr(s.cs[start:]))
+    return ValRef(RStr(s.cs[cidx(m, s.cs, args[1].fields[0], 'start byte index'):]))
+
+
+@model(r'^<(String|str) as (std::ops::)?Index<(std::ops::)?Range<usize>>>::index$')
+def _(m, callee, args):
+    s = rstr(m, args[0])
+    a, b = args[1].fields[0], args[1].fields[1]
+    ia, ib = cidx(m, s.cs, a, 'start byte index'), cidx(m, s.cs, b, 'end byte index')
+    if ia > ib:
+        raise Panic('slice index starts after end')
+    return ValRef(RStr(s.cs[ia:ib]))
 
 
 @model(r'^<String as (std::ops::)?Add<&str>>::add$')
@@ -167,3 +204,35 @@ def _(m, callee, args):
 @model(r'^<str as ToOwned>::to_owned$')
 def _(m, callee, args):
     return RStr(rstr(m, args[0]).cs)
+
+
+@model(r'^<char as ToString>::to_string$')
+def _(m, callee, args):
+    return RStr([charval(m, args[0])])
+
+
+@model(r"^Chars::<'_>::as_str$")
+def _(m, callee, args):
+    r = args[0]
+    it = m.read_place(r.frame, r.place) if isinstance(r, Ref) else r
+    return ValRef(RStr(it.s.cs[it.pos:]))
+
+
+class Opaque:
+    """a value the code only passes around (syn::Type, Expr, Span, TokenStream ...): identity only"""
+    n = 0
+
+    def __init__(self, label):
+        Opaque.n += 1
+        self.label = label
+
+    def __repr__(self):
+        return f'Opaque({self.label})'
+
+
+@model(r'^<.* as Clone>::clone$')
+def _(m, callee, args):
+    v = args[0]
+    while isinstance(v, (Ref, ValRef)):
+        v = m.read_place(v.frame, v.place) if isinstance(v, Ref) else v.v
+    return v
